@@ -896,6 +896,15 @@ func (db *DB) Close(ctx context.Context) (err error) {
 	db.syncState = syncState{}
 	db.mu.Unlock()
 
+	// The cached position and level maxima describe the local LTX directory
+	// as this session left it. It may be reset or removed while the DB is
+	// closed (litestream reset, a lost meta directory), so a later Open() of
+	// the same object must read them again.
+	db.invalidatePosCache()
+	db.maxLTXFileInfos.Lock()
+	db.maxLTXFileInfos.m = make(map[int]*ltx.FileInfo)
+	db.maxLTXFileInfos.Unlock()
+
 	if sqlDB != nil {
 		if e := sqlDB.Close(); e != nil && err == nil {
 			err = e
